@@ -285,7 +285,8 @@ func main() {
 			r.Fatal("%v", err)
 		}
 		check(x, c)
-		r.Finish()
+		irworld.CloseAll()
+	r.Finish()
 	}
 
 	var cases []tcase
@@ -349,5 +350,6 @@ func main() {
 	r.Exhaustive(exhaustive)
 	r.Assume("reference for 'validated by its handler' = the same call delivered alone in a canonical request to a server that already knows the container being created is co-signed (checked against the menu's intended classes at start)",
 		"oracle is one-directional ('only if')", "alphabet-member state; every chain mutation succeeds; chain says every script is valid (IsValidScript)")
+	irworld.CloseAll()
 	r.Finish()
 }
